@@ -6,6 +6,7 @@ import (
 	"hash/fnv"
 	mrand "math/rand/v2"
 
+	"github.com/gmrtd/gmrtd/cryptoutils"
 	"github.com/gmrtd/gmrtd/iso7816"
 
 	"verifharness/chipsim"
@@ -365,8 +366,129 @@ func c03Unit(c *fw.Ctx, k *fw.K, i int) {
 			}
 			k.Violation("sm:decode:accepts:"+v.kind, fmt.Sprintf("%s variant accepted with %d bytes / status %04x; genuine is %d bytes / %04x", v.kind, gl, gs, len(plain), sw), det(v.kind, v.b))
 		}
+		// validly MACed responses of the chip whose decrypted data field is not well-formed
+		// ISO 9797-1 method-2 padding (no 80 marker, non-zero octets after the marker, a marker
+		// in the middle of data): there is no plaintext such a response stands for
+		if j%4 == 1 {
+			bs := suite.BlockSize()
+			base := genRespData(r, false)
+			if len(base) < 3 {
+				base = []byte{0x11, 0x22, 0x33}
+			}
+			for mi, name := range []string{"no-marker-zeros", "nonzero-after-marker", "marker-inside-data-no-final-marker", "all-zero-block", "marker-then-ff"} {
+				var pt []byte
+				switch mi {
+				case 0:
+					pt = append(append([]byte{}, base...), make([]byte, bs-len(base)%bs)...)
+					for q := range pt {
+						if pt[q] == 0x80 {
+							pt[q] = 0x81
+						}
+					}
+					if pt[len(pt)-1] == 0 && len(pt)%bs == 0 && bs-len(base)%bs == bs {
+						pt = pt[:len(pt)-bs] // base was block aligned: nothing was added, keep it unpadded
+					}
+				case 1:
+					pt = symref.Pad2(base, bs)
+					if len(pt)-len(base) < 3 {
+						pt = append(pt, make([]byte, bs)...)
+						pt[len(base)] = 0x80
+					}
+					pt[len(pt)-2] = 0x01
+				case 2:
+					pt = append(append([]byte{}, base...), 0x80)
+					for len(pt)%bs != bs-1 {
+						pt = append(pt, byte(0x21+len(pt)%7))
+					}
+					pt = append(pt, 0x55)
+				case 3:
+					pt = make([]byte, bs)
+				default:
+					pt = append(append([]byte{}, base...), 0x80)
+					for len(pt)%bs != 0 {
+						pt = append(pt, 0xFF)
+					}
+					if pt[len(pt)-1] == 0x80 {
+						pt = append(pt, bytesRepeat(0xFF, bs)...)
+					}
+				}
+				if len(pt) == 0 || len(pt)%bs != 0 {
+					continue
+				}
+				mal := chipsim.NewSM(suite, kenc, kmac, sscPre).WrapPadded(pt, sw)
+				k.AddEvals(1)
+				k.Count("unit_malformed_padding_" + name)
+				t := newLibSM(k, suite, kenc, kmac, sscAfterEncode)
+				rr, err := t.Decode(append([]byte{}, mal...))
+				if err != nil {
+					k.Count("unit_rejected_malformed-padding")
+					continue
+				}
+				var gl int
+				if rr != nil {
+					gl = len(rr.Data)
+				}
+				k.Violation("sm:decode:accepts:malformed-padding:"+name, fmt.Sprintf("a validly MACed response whose decrypted data (%x) is not well-formed ISO 9797-1 method-2 padding was accepted and delivered %d bytes", pt, gl), det("malformed-padding:"+name, mal))
+			}
+		}
 		earlier = append(earlier, resp)
 	}
+}
+
+func bytesRepeat(b byte, n int) []byte {
+	out := make([]byte, n)
+	for i := range out {
+		out[i] = b
+	}
+	return out
+}
+
+// c03OddKeys: sessions built with key material of a length the cipher's MAC cannot use (3DES
+// keys of 8 or 24 octets; the constructor may refuse them - then there is nothing to judge).
+// No genuine response exists for such a session, so EVERY response presented must be refused;
+// in particular responses an attacker can build without any key.
+func c03OddKeys(k *fw.K, i int) {
+	r := k.RNG
+	for _, n := range []int{8, 24, 15, 17, 32} {
+		kenc, kmac := randBytes(r, n), randBytes(r, n)
+		sm, err := iso7816.NewSecureMessaging(cryptoutils.TDES, append([]byte{}, kenc...), append([]byte{}, kmac...))
+		if err != nil || sm == nil {
+			k.Count(fmt.Sprintf("odd_key_length_%d_refused_by_constructor", n))
+			continue
+		}
+		k.Count(fmt.Sprintf("odd_key_length_%d_session_built", n))
+		ssc := randBytes(r, 8)
+		for _, sw := range []uint16{0x9000, 0x6A82, 0x6982, 0x6283} {
+			swb := []byte{byte(sw >> 8), byte(sw)}
+			forged := map[string][]byte{
+				"empty-mac":    append(append([]byte{0x99, 0x02, swb[0], swb[1], 0x8E, 0x00}, swb...)),
+				"zero-mac":     append(append([]byte{0x99, 0x02, swb[0], swb[1], 0x8E, 0x08, 0, 0, 0, 0, 0, 0, 0, 0}, swb...)),
+				"random-mac":   append(append(append([]byte{0x99, 0x02, swb[0], swb[1], 0x8E, 0x08}, randBytes(r, 8)...), swb...)),
+				"no-mac":       append([]byte{0x99, 0x02, swb[0], swb[1]}, swb...),
+				"data-and-mac": append(append(append([]byte{0x87, 0x09, 0x01}, randBytes(r, 8)...), 0x99, 0x02, swb[0], swb[1], 0x8E, 0x00), swb...),
+			}
+			for _, name := range []string{"empty-mac", "zero-mac", "random-mac", "no-mac", "data-and-mac"} {
+				if err := sm.SetSSC(append([]byte{}, ssc...)); err != nil {
+					k.Count("odd_key_setssc_refused")
+					break
+				}
+				k.AddEvals(1)
+				k.Distinct(fmt.Sprintf("oddkey|%d|%d|%04x|%s", i, n, sw, name))
+				rr, err := sm.Decode(append([]byte{}, forged[name]...))
+				if err != nil {
+					k.Count("odd_key_forged_response_refused")
+					continue
+				}
+				st := uint16(0)
+				if rr != nil {
+					st = rr.Status
+				}
+				k.Violation(fmt.Sprintf("sm:decode:accepts:unauthenticated:key-length-%d:%s", n, name), fmt.Sprintf("a 3DES session built from %d-octet keys accepted a response that needs no key to build (%x) and delivered status %04x", n, forged[name], st),
+					map[string]any{"kenc": fmt.Sprintf("%x", kenc), "kmac": fmt.Sprintf("%x", kmac), "ssc": fmt.Sprintf("%x", ssc), "response": fmt.Sprintf("%x", forged[name])})
+			}
+		}
+	}
+	k.Nontrivial(fmt.Sprintf("oddkeys|%d", i))
 }
 
 func hexCap(b []byte, n int) string {
@@ -668,4 +790,5 @@ func runC03(c *fw.Ctx) {
 		c03History(c, k, i)
 	})
 	runC03Status(c)
+	c.Cases(c.Pick(8, 200), func(i int) string { return fmt.Sprintf("odd-keys|i=%d", i) }, func(i int, k *fw.K) { c03OddKeys(k, i) })
 }
